@@ -314,8 +314,8 @@ pub fn check(args: &Args) -> i32 {
     for i in 0..3u64.min(n) {
         let w = generate(seed_of(seed, Prop::C14, i), Prop::C14);
         let root = w.root_file().to_wxml();
-        let printed = reprint("index", &root, false).map(|r| r.text).unwrap_or_default();
-        let mangled = reprint("index", &root, true).map(|r| r.text).unwrap_or_default();
+        let printed = reprint(&w.root_path, &root, false).map(|r| r.text).unwrap_or_default();
+        let mangled = reprint(&w.root_path, &root, true).map(|r| r.text).unwrap_or_default();
         samples.push(json!({"run": i, "root_source": root, "re_printed": printed, "re_printed_mangled": mangled, "data": w.data, "schedule": w.schedule}));
     }
     let exec_rate = executable as f64 / n.max(1) as f64;
@@ -453,7 +453,7 @@ pub fn shrink_c14(w: &World, class: &str, budget: usize) -> (World, Violation, u
             }
             break;
         }
-        let root_i = cur.files.iter().position(|f| f.path == "index").unwrap();
+        let root_i = cur.files.iter().position(|f| f.path == cur.root_path).unwrap();
         if cur.files[root_i].raw.is_some() {
             'text: loop {
                 let src = cur.files[root_i].raw.clone().unwrap();
